@@ -1,7 +1,7 @@
 (* C02 — Intra pictures reconstruct exactly as H.263 prescribes.
    Proved so far (the composition over whole pictures is tied by execution against the
    reference reconstruction, see DESIGN.md): *)
-From H263V Require Import base.Prelude model.Types model.Tables model.Syntax model.Recon model.Decoder proofs.ReconSpec.
+From H263V Require Import base.Prelude spec.SpecRecon model.Types model.Tables model.Syntax model.Recon model.Decoder proofs.ReconSpec.
 
 (* every coefficient: sign(L) (Q (2|L|+1) - [Q even]) saturated to -2048..2047, for every quantizer and level *)
 Theorem C02_dequant_exact : forall q level, 0 <= q -> dequant q level = spec_dequant q level.
